@@ -136,3 +136,65 @@ Proof. intros Hf. induction l as [|m [|m2 r] IH]; [reflexivity|reflexivity|].
   cbn [map]. rewrite join_cons_cons. unfold tok_string in *. rewrite (tok_go_app true _ _ (Hf m)).
   cbn [tok_go tok_text app]. rewrite tok_go_false by (apply sep_tokens_nonempty; [exact Hf|discriminate]).
   cbn [map] in IH. rewrite IH. reflexivity. Qed.
+
+(* ------------------------------------------------------------------ find_key on joined texts *)
+Lemma starts_skipn_app pat x z : starts pat x = true -> skipn (List.length pat) (x ++ z) = skipn (List.length pat) x ++ z.
+Proof. revert x. induction pat as [|p pat IH]; intros x H; [reflexivity|]. destruct x as [|c x]; [discriminate|].
+  cbn [starts] in H. apply andb_true_iff in H as [_ H]. cbn [List.length skipn app]. apply IH. exact H. Qed.
+Lemma trim_l_opens x z : opens_value (trim_l x) = true -> trim_l (x ++ z) = trim_l x ++ z.
+Proof. induction x as [|c x IH]; intros H; [discriminate|]. cbn [app trim_l] in *. destruct (is_space c); [apply IH; exact H|reflexivity]. Qed.
+(* what follows a text in a comma-separated list never opens a value *)
+Lemma opens_sep x b : opens_value (trim_l (x ++ " " :: "," :: b)) = opens_value (trim_l x).
+Proof. induction x as [|c x IH]; [reflexivity|]. cbn [app trim_l]. destruct (is_space c); [exact IH|reflexivity]. Qed.
+
+Section KeyJoined.
+Variable key : str.
+Hypothesis Hn : nospace key = true.
+Hypothesis Hp : key <> [].
+Hypothesis Hcomma : forall z, starts key ("," :: z) = false.
+
+Lemma starts_key_sp z : starts key (" " :: z) = false.
+Proof. destruct key as [|c k]; [congruence|]. cbn [nospace forallb] in Hn. apply andb_true_iff in Hn as [H _].
+  apply negb_true_iff in H. cbn [starts]. rewrite H. reflexivity. Qed.
+Lemma starts_key_comma z : starts key ("," :: z) = false.
+Proof. apply Hcomma. Qed.
+
+Lemma key_scan_sep p a b :
+  key_scan key p (a ++ " " :: "," :: " " :: b) =
+  match key_scan key p a with Some r => Some (r ++ " " :: "," :: " " :: b) | None => key_scan key false b end.
+Proof. revert p. induction a as [|c a IH]; intros p.
+  - cbn [app key_scan]. rewrite starts_key_sp. cbn [andb]. rewrite starts_key_comma. cbn [andb]. rewrite starts_key_sp. reflexivity.
+  - cbn [key_scan]. change ((c :: a) ++ " " :: "," :: " " :: b) with ((c :: a) ++ " " :: ("," :: " " :: b)).
+    cbn [app key_scan]. change (c :: a ++ " " :: "," :: " " :: b) with ((c :: a) ++ " " :: ("," :: " " :: b)).
+    rewrite (starts_app_space key (c :: a) _ Hn).
+    destruct (starts key (c :: a)) eqn:Es.
+    + rewrite (starts_skipn_app key (c :: a) _ Es), opens_sep.
+      destruct (negb p && opens_value (trim_l (skipn (List.length key) (c :: a)))) eqn:E.
+      * cbn [andb]. rewrite E. apply andb_true_iff in E as [_ E]. rewrite (trim_l_opens _ _ E). reflexivity.
+      * cbn [andb]. rewrite E. apply IH.
+    + cbn [andb]. apply IH. Qed.
+
+(* the first text holding the key as a key decides; earlier texts hold none *)
+Lemma key_scan_join pre t r post :
+  (forall x, In x pre -> key_scan key false x = None) -> key_scan key false t = Some r ->
+  key_scan key false (join SEP (pre ++ t :: post)) = Some (r ++ tail_text post).
+Proof. intros Hfree Ht. induction pre as [|x pre IH].
+  - cbn [app]. destruct post as [|y l].
+    + cbn [join tail_text]. rewrite app_nil_r. exact Ht.
+    + rewrite join_cons_cons. cbn [app]. rewrite key_scan_sep, Ht. reflexivity.
+  - cbn [app]. destruct (pre ++ t :: post) as [|y l] eqn:E; [destruct pre; discriminate|].
+    rewrite join_cons_cons. cbn [app]. rewrite key_scan_sep, (Hfree x (or_introl eq_refl)).
+    apply IH. intros z Hz. apply Hfree. right. exact Hz. Qed.
+Lemma key_scan_join_none texts : (forall x, In x texts -> key_scan key false x = None) ->
+  key_scan key false (join SEP texts) = None.
+Proof. intros Hfree. induction texts as [|x [|y l] IH].
+  - reflexivity.
+  - cbn [join]. apply Hfree. left. reflexivity.
+  - rewrite join_cons_cons. cbn [app]. rewrite key_scan_sep, (Hfree x (or_introl eq_refl)).
+    apply IH. intros z Hz. apply Hfree. right. exact Hz. Qed.
+
+(* the key at the start of a text, followed by something that opens a value *)
+Lemma key_scan_here R : opens_value (trim_l R) = true -> key_scan key false (key ++ R) = Some (trim_l R).
+Proof. intros H. destruct key as [|c k] eqn:Ek; [congruence|]. cbn [app key_scan]. change (c :: k ++ R) with ((c :: k) ++ R).
+  rewrite starts_refl_app, skipn_len_app, H. reflexivity. Qed.
+End KeyJoined.
